@@ -58,6 +58,11 @@ type RunConfig struct {
 	StallPermille int `json:",omitempty"`
 	StallHitPct   int `json:",omitempty"`
 	StallMaxShift int `json:",omitempty"`
+	// StallOnly: a targeted run - the single stall site, held up for 1µs << (StallMinShift..StallMaxShift)
+	StallOnly     string `json:",omitempty"`
+	StallMinShift int    `json:",omitempty"`
+	// FaultOnStall: a connection reset follows each stall of a targeted run within a few driver steps
+	FaultOnStall bool `json:",omitempty"`
 }
 
 // Program is the workload and fault plan of a run; explicit data so that it can
